@@ -27,6 +27,8 @@ func decodePanic(v string) any {
 		n := 0
 		fmt.Sscan(v[2:], &n)
 		return n
+	case v == "a:abort":
+		return http.ErrAbortHandler
 	default:
 		return tval{X: v[2:]}
 	}
@@ -41,6 +43,9 @@ func encodePanic(v any) string {
 	case int:
 		return "i:" + itoa(x)
 	case error:
+		if x == http.ErrAbortHandler {
+			return "a:abort"
+		}
 		if _, ok := v.(interface{ RuntimeError() }); ok {
 			return "runtime:" + x.Error()
 		}
@@ -90,7 +95,10 @@ func (e *grEnv) call(w http.ResponseWriter, req *http.Request, route types.Route
 }
 
 func (e *grEnv) recoverOpt() mux.Option {
-	return mux.WithRecovery(func(w http.ResponseWriter, msg any) { e.recovered = append(e.recovered, encodePanic(msg)) })
+	return mux.WithRecovery(func(w http.ResponseWriter, msg any) {
+		e.recovered = append(e.recovered, encodePanic(msg))
+		w.Write([]byte("recovered")) // 9 bytes: must not reach the client of a HEAD request
+	})
 }
 
 func (e *grEnv) mws(ids []string) []types.Middleware[*H] {
@@ -152,7 +160,7 @@ func (e *grEnv) router(name string) *mux.Router[*H] {
 	return e.g.Router(name)
 }
 
-func (e *grEnv) observe(cls string, recVal any) []string {
+func (e *grEnv) observe(cls string, recVal any, body int) []string {
 	if cls != "" && !e.last.called {
 		return []string{"panic", cls}
 	}
@@ -169,7 +177,7 @@ func (e *grEnv) observe(cls string, recVal any) []string {
 		pat = e.last.node.Pattern()
 	}
 	out := []string{"served", h.coreID(), h.term + "\x1f" + strings.Join(h.layers, "\x1f"), e.last.rname, e.last.path,
-		strings.Join(e.recovered, "\x1f"), esc, pat}
+		strings.Join(e.recovered, "\x1f"), esc, pat, itoa(body)}
 	return append(out, e.last.params...)
 }
 
@@ -201,7 +209,7 @@ func (e *grEnv) serve(h http.Handler, method, host, path, accept string, raises 
 		}()
 		h.ServeHTTP(w, req)
 	}()
-	return e.observe(cls, val)
+	return e.observe(cls, val, w.Body.Len())
 }
 
 func (e *grEnv) exec(o []string) []string {
@@ -258,6 +266,14 @@ func (e *grEnv) exec(o []string) []string {
 			return []string{"norouter"}
 		}
 		return outcome(guard(func() { r.Handle(o[2], &H{term: "U(" + o[3] + ")", core: "U", id: o[3]}, e.mws(mwIDs), methods...) }))
+	case "poolprobe":
+		a, b := types.NewContext(), types.NewContext()
+		same := a == b
+		a.Destroy()
+		if !same {
+			b.Destroy()
+		}
+		return []string{b2s(!same)}
 	case "greq":
 		_, rest := takeList(o[6:])
 		rs, _ := takeList(rest)
@@ -334,7 +350,7 @@ func genMatcher(r *rand.Rand, depth int) []string {
 	}
 }
 
-var panicVals = []string{"s:boom", "e:bad", "i:42", "t:x", "s:", "s:second"}
+var panicVals = []string{"s:boom", "e:bad", "i:42", "t:x", "s:", "s:second", "a:abort"}
 
 func genGR(focus string) func(r *rand.Rand, w *W) [][]string {
 	return func(r *rand.Rand, w *W) [][]string {
@@ -342,6 +358,7 @@ func genGR(focus string) func(r *rand.Rand, w *W) [][]string {
 		ops := [][]string{{"gcfg", b2s(grec)}}
 		var names, allMws []string
 		mwN := 0
+		earlyUse := r.Intn(4) == 0
 		newMws := func(max int) []string {
 			var ids []string
 			for i := r.Intn(max + 1); i > 0; i-- {
@@ -355,6 +372,11 @@ func genGR(focus string) func(r *rand.Rand, w *W) [][]string {
 		if focus == "C16" && r.Intn(2) == 0 {
 			ops = append(ops, []string{"rnew", "solo", b2s(r.Intn(3) == 0), b2s(r.Intn(2) == 0)})
 			solo = append(solo, "solo")
+		}
+		if earlyUse { // Use on a group that has no routers yet
+			mwN++
+			allMws = append(allMws, "m"+itoa(mwN))
+			ops = append(ops, append([]string{"guse"}, list("m"+itoa(mwN))...))
 		}
 		nr := 1 + r.Intn(4)
 		for i := 0; i < nr; i++ {
@@ -419,6 +441,9 @@ func genGR(focus string) func(r *rand.Rand, w *W) [][]string {
 			op := append([]string{"greq", method, host, path, accept}, parsedAccept(accept)...)
 			op = append(op, list(genRaises()...)...)
 			ops = append(ops, op)
+			if r.Intn(3) == 0 {
+				ops = append(ops, []string{"poolprobe"})
+			}
 			if len(solo) > 0 && r.Intn(3) == 0 {
 				ops = append(ops, append([]string{"rreq", "solo", method, path}, list(genRaises()...)...))
 			}
